@@ -115,7 +115,8 @@ def brief(e: dict[str, Any]) -> str:
     return f"py={e.get('python_full_version')} platform={e.get('sys_platform')} extras={e.get('extra')}"
 
 
-CORPUS = [('sys_platform not in "a b"', 'sys_platform not in "c d"'), ('python_version >= "3.8"', 'python_version < "3.9"'),
+CORPUS = [('python_version in "2.7"', 'python_full_version not in "3.8"'), ('python_version == "3.8"', 'python_full_version in "3.8"'),
+          ('sys_platform not in "a b"', 'sys_platform not in "c d"'), ('python_version >= "3.8"', 'python_version < "3.9"'),
           ('python_version == "3.8"', 'python_version >= "3.9"'), ('python_version >= "3"', 'python_version < "4"'),
           ('python_version >= "3.8" and python_version < "3.10"', 'python_full_version >= "3.9.1"'),
           ('python_full_version > "3.8.0"', 'python_version <= "3.8"'), ('extra == "a"', 'extra != "a"'), ('extra == "a"', 'extra == "b"'),
@@ -127,12 +128,17 @@ CORPUS = [('sys_platform not in "a b"', 'sys_platform not in "c d"'), ('python_v
           ('(python_version >= "3.8" or os_name == "nt") and (python_version >= "3.8" or extra == "a")', 'python_version < "3.8"')]
 
 
-def run(ctx: core.Ctx, pairs: list[tuple[str, str]], stream: str, envs: list[dict[str, Any]] | None = None) -> None:
+def run(ctx: core.Ctx, pairs: list[tuple[str, str]], stream: str, envs: list[dict[str, Any]] | None = None,
+        keep_caches: bool = False) -> None:
     envs = envs or G.env_grid(ctx.rng, 24)
     cases: list[dict[str, Any]] = []
-    for a, b in pairs:
-        cases += cases_for(a, b)
-    recs = E.run_cases(ctx, cases, stream, envs)
+    for i, (a, b) in enumerate(pairs):
+        cs = cases_for(a, b)
+        if keep_caches:     # the calls made before this one in the same process, kept in the witness for the replay
+            for c in cs:
+                c["history"] = [list(x) for x in pairs[max(0, i - 4):i]]
+        cases += cs
+    recs = E.run_cases(ctx, cases, stream, envs, keep_caches=keep_caches)
     oracle(ctx, recs, envs)
 
 
@@ -145,6 +151,9 @@ def correspondence(ctx: core.Ctx) -> None:
     pairs = [gen_pair(ctx.rng) for _ in range(n)]
     for k in range(0, len(pairs), 400):
         run(ctx, pairs[k:k + 400], "gen")
+    hist = [(a, b if b is not None else a) for a, b in G.history_items(ctx.rng, ctx.budget(200, 5000))]
+    for k in range(0, len(hist), 400):
+        run(ctx, hist[k:k + 400], "history", keep_caches=True)
 
 
 def search(ctx: core.Ctx) -> None:
@@ -168,5 +177,6 @@ def replay(ctx: core.Ctx, payload: dict[str, Any]) -> bool:
     w = payload.get("witness", payload)
     before = len(ctx.violations)
     envs = [w["env"]] if "env" in w else G.envs()
-    run(ctx, [(w["a"], w.get("b", w["a"]))], "replay", envs=envs)
+    hist = [(x[0], x[1]) for x in w.get("history", [])]
+    run(ctx, hist + [(w["a"], w.get("b", w["a"]))], "replay", envs=envs, keep_caches=bool(hist))
     return len(ctx.violations) > before
